@@ -386,7 +386,46 @@ Definition step_op (st : state) (o : op) : state * N :=
   | OMigrate src dst order hard => migrate_op st src dst order hard
   end.
 
+(* ---- the caller's obligations (WfOp of Proofs/StoreOpsProofs.v), as a boolean ---- *)
+(* the bytes are what Tree.as_bytes() prints for the tree they parse to *)
+Definition canonical_b (b : list N) : bool :=
+  match from_bytes None b with
+  | FlOk t => list_N_eqb (as_bytes false t) b
+  | FlErr _ => false
+  end.
+Definition named_ok_b (a : alg) (k : oid) (b : list N) : bool :=
+  if is_dir_oid k then list_N_eqb k (H a b ++ dot_dir) && canonical_b b else list_N_eqb k (H a b).
+
+Definition wf_op_b (st : state) (o : op) : bool :=
+  match o with
+  | OStage si w | OStageUpload si w =>
+      match w, get_store st si with
+      | WDir _, Some s => negb (alg_eqb (s_alg s) Sha256)
+      | _, _ => true
+      end
+  | OAdd si b k =>
+      match get_store st si with Some s => named_ok_b (s_alg s) k b | None => true end
+  | OTransfer src dst _ _ =>
+      match get_store st src, get_store st dst with
+      | Some s, Some d => alg_eqb (s_alg s) (s_alg d)
+      | _, _ => true
+      end
+  | OSaveIndex si dirs files =>
+      match get_store st si with
+      | Some s => forallb (fun f => list_N_eqb (snd f) (H (s_alg s) (snd (fst f)))) files
+                  && (match dirs with [] => true | _ => negb (alg_eqb (s_alg s) Sha256) end)
+      | None => true
+      end
+  | OMigrate _ _ _ _ => true
+  end.
+
 Definition step (st : state) (o : op) : state := fst (step_op st o).
+
+Fixpoint wf_hist_b (st : state) (ops : list op) : bool :=
+  match ops with
+  | [] => true
+  | o :: r => wf_op_b st o && wf_hist_b (step st o) r
+  end.
 Definition run (st : state) (ops : list op) : state := fold_left step ops st.
 
 End WithDigest.
@@ -530,13 +569,14 @@ Fixpoint deltas (prev next : list store) : list val :=
   | _, _ => []
   end.
 
-(* run a history; after every step: the result code and the delta of every store *)
+(* run a history; after every step: the result code, whether the operation met the caller's
+   obligations (WfOp) in the state it was applied to, and the delta of every store *)
 Fixpoint run_trace (H : alg -> list N -> oid) (st : state) (ops : list op) : list val :=
   match ops with
   | [] => []
   | o :: r =>
       let '(st', c) := step_op H st o in
-      VL [VN c; VL (deltas (st_stores st) (st_stores st'))] :: run_trace H st' r
+      VL [VN c; enc_bool (wf_op_b H st o); VL (deltas (st_stores st) (st_stores st'))] :: run_trace H st' r
   end.
 
 Definition run_history (cfg : list (cls * alg)) (ops : list op) : val :=
